@@ -3,6 +3,7 @@ pub mod bfs;
 pub mod chooser;
 pub mod report;
 pub mod task;
+pub mod thread;
 
 pub use chooser::{dfs, dfs_par, Chooser, DfsCfg, DfsStats};
 pub use report::{catch, h64, quiet_panics, Args, Report};
